@@ -62,11 +62,12 @@ def carr(name, length=None, elem='int'):
     c.attrs['length'] = data.length
 
     def resize(ex, st, a, k, n):
-        c2 = a  # noqa
-        data.length = S.to_z3(a[0])
-        c.attrs['length'] = data.length
-        st.trace.append(('resize', name, a[0]))
-    c.attrs['resize'] = Native(resize)
+        me = a[0]
+        d = me.attrs['data']
+        d.length = S.to_z3(a[1])
+        me.attrs['length'] = d.length
+        st.trace.append(('resize', name, a[1]))
+    c.attrs['resize'] = Native(resize, 'resize', bind=True)
     return c
 
 
@@ -166,31 +167,18 @@ def replay_native(need_build):
         from pyvc.repo import REPO_ROOT
         if os.environ.get('PYVC_NO_BUILD_REPLAY'):
             return dict(reproduced=False, note='build replay disabled')
-        tmp = tempfile.mkdtemp(prefix='pyvc_nnps_build_')
         try:
-            dst = os.path.join(tmp, 'tree')
-            subprocess.run(['rsync', '-a', '--exclude', '.git', '--exclude',
-                            'build', '--exclude', 'docs', REPO_ROOT + '/',
-                            dst + '/'], check=True)
-            env = dict(os.environ)
-            env.pop('PYTHONPATH', None)
-            p = subprocess.run(['/venv/bin/python', 'setup.py', 'build_ext',
-                                '--inplace', '-j', '8'], cwd=dst,
-                               capture_output=True, text=True, env=env,
-                               timeout=3000)
-            if p.returncode != 0:
-                return dict(reproduced=False, note='build failed: %s' %
-                            (p.stdout + p.stderr)[-300:])
+            dst, msg = native.shared_build()
+            if dst is None:
+                return dict(reproduced=False, note=msg)
             r = native.run_venv(REPLAY, dict(built=dst), timeout=900,
-                                cwd=tmp)
+                                cwd='/tmp')
             if r['bad']:
                 return dict(reproduced=True, how='extensions built from the '
                             'working tree', **r['bad'])
             return dict(reproduced=False)
         except Exception as e:
             return dict(reproduced=False, note=str(e)[-300:])
-        finally:
-            shutil.rmtree(tmp, ignore_errors=True)
     return rp
 
 
